@@ -259,7 +259,8 @@ func parseAtom(lex *lexer.PeekingLexer) (Expression, error) {
 			NodeMeta: nodeMetaFromPosition(tok.Pos),
 		}
 		if err := i.Value.UnmarshalText([]byte(tok.Value)); err != nil {
-			return nil, err
+			// e.g. "09": matched by the lexer but not a valid integer literal
+			return nil, &participle.ParseError{Pos: tok.Pos, Msg: fmt.Sprintf("invalid integer literal '%s'", tok.Value)}
 		}
 		return &i, nil
 	case TokenTypeFloat:
